@@ -101,6 +101,20 @@ func extractC08(c *ctx) (Facts, error) {
 			distinct = false
 		}
 	}
+	// the key type is a DEFINED type of package message (not an alias of string): nothing outside the package can make an equal key
+	if f, err := c.file(relCtx); err == nil {
+		defined := false
+		for _, d := range f.Decls {
+			if gd, ok := d.(*ast.GenDecl); ok && gd.Tok == token.TYPE {
+				for _, sp := range gd.Specs {
+					if ts, ok := sp.(*ast.TypeSpec); ok && ts.Name.Name == "ctxKey" {
+						defined = !ts.Assign.IsValid()
+					}
+				}
+			}
+		}
+		facts["ctx_key_is_a_private_defined_type"] = defined
+	}
 	facts["ctx_key_constants"] = len(keyVal)
 	facts["ctx_key_values_distinct"] = distinct
 
